@@ -84,7 +84,14 @@ impl Drop for AsyncWritableFile {
     fn drop(&mut self) {
         let mut content = vec![];
         swap(&mut content, self.content.get_mut());
-        futures::executor::block_on(self.fs.write()).files.insert(
+        let mut handle = futures::executor::block_on(self.fs.write());
+        match handle.files.get(&self.destination) {
+            Some(file) if file.file_type == VfsFileType::File => {}
+            // the file was removed (or replaced by a directory) while this handle was open:
+            // as for writes to an unlinked file, the data is not published
+            _ => return,
+        }
+        handle.files.insert(
             self.destination.clone(),
             AsyncMemoryFile {
                 file_type: VfsFileType::File,
